@@ -82,7 +82,7 @@ class Gen:
         if r < 0.08:
             self.hit("socket-type"); return "$" + self.r.choice(["s", "ext", "a-b"])
         if self.ex():
-            self.hit("dollar-id"); return self.r.choice(["$", "$$$x", "$1", "$ x"])
+            self.hit("dollar-id"); return self.r.choice(["$", "$$$x", "$1", "a$"])
         return self.id()
 
     def groupname(self):
@@ -334,7 +334,9 @@ class Gen:
         n = self.r.choice([0, 1, 1, 1, 2, 2, 3])
         s = self.S()
         for _ in range(n):
-            s += self.rule(self.r.choice([1, 2, 2, 3])) + self.r.choice(["\n", "\n\n", " ", "", " ;end", "\r\n"])
+            s += self.rule(self.r.choice([1, 2, 2, 3])) + self.r.choice(["\n", "\n\n", " ", "\n", " ; eol\n", "\r\n"])
+        if n and self.r.random() < 0.1:
+            self.hit("final-comment-leniency"); s += ";end"
         return s
 
 
@@ -411,6 +413,16 @@ PROBES = [
 ]
 
 
+# (f) one-character sweep: every code point of SWEEP_CPS in every slot of SWEEP_SLOTS (a token class widened or narrowed
+# by a single character shows up here whatever the character is)
+SWEEP_CPS = list(range(0, 0x180)) + [0x2000, 0x2003, 0x200B, 0x2028, 0x2029, 0x202F, 0x3000, 0xD7FF, 0xE000, 0xFEFF, 0xFFFD, 0xFFFE,
+                                     0xFFFF, 0x10000, 0x1F600, 0x10FFFD, 0x10FFFE, 0x10FFFF]
+SWEEP_SLOTS = ["%sx = int", "x%s = int", "x%sy = int", "a = %s", "a = x%sy", "a = x%s", "a = 1%s", "a = 0x%s", "a = 0x1%s", "a = 0b%s", "a = 0b1%s",
+               "a = \"%s\"", "a = \"\\%s\"", "a = '%s'", ";%s\na = int", "a%s= int", "a =%sint", "a = int%sb = int", "a = [%sx]", "a = [x%s]",
+               "a = [x%sy]", "a = [1*%s x]", "a = #%s", "a = #6.%s(x)", "a = x .%s", "a = x .size%s", "a = 1.%s", "a = 1e%s", "a = -%s", "a = {x%s int}",
+               "a = {x %s int}", "a = x %s y", "a<t%s> = t", "a = b<%s>", "a = h'0%s'", "a = h\"%s\"", "a %s int"]
+
+
 def utf8_ok(s):
     try:
         s.encode("utf-8")
@@ -425,18 +437,18 @@ def gen_texts(rng, tier, wide):
     scale = {"quick": 1, "thorough": 40}[tier] * (2 if wide else 1)
     g = Gen(rng)
     sampled = []
-    for _ in range(1200 * scale):
+    for _ in range(2500 * scale):
         d = g.doc()
         if len(d.encode()) <= 110:
             sampled.append(d)
     out += [("abnf-sample", d) for d in sampled]
     gx = Gen(rng, exotic=0.25)
-    for _ in range(150 * scale):
+    for _ in range(300 * scale):
         d = gx.doc()
         if len(d.encode()) <= 110:
             out.append(("abnf-sample-exotic", d))
     base = [d for d in sampled if d.strip()]
-    for d in rng.sample(base, min(len(base), 500 * scale)):
+    for d in rng.sample(base, min(len(base), 1000 * scale)):
         out.append(("char-edit", char_edit(rng, d)))
         out.append(("token-edit", token_edit(rng, d)))
     for p in PROBES:
@@ -455,6 +467,14 @@ def gen_texts(rng, tier, wide):
         out.append(("glued-tokens-sample", "".join(rng.choice(TOKENS) for _ in range(2 + rng.randrange(4)))))
     for _ in range(2500 * scale):
         out.append(("arbitrary", "".join(rng.choice(ARB) for _ in range(1 + rng.randrange(7)))))
+    for cp in SWEEP_CPS:
+        for slot in SWEEP_SLOTS:
+            out.append(("char-sweep", slot % chr(cp)))
+    for n in CONTROLS:
+        out.append(("control-probe", "a = b .%s c" % n))
+        out.append(("control-probe", "a = b .%s" % n))
+        out.append(("control-probe", "a = b .%sx c" % n))
+        out.append(("control-probe", "a = b .%s c" % n[:-1]))
     return [(c, t) for c, t in out if utf8_ok(t)], dict(g.used), dict(gx.used)
 
 
@@ -558,37 +578,33 @@ def classify(res, orc, div, findings, stats, hist):
         return
     texts = [r["text"] for r in div]
     allv = variant(orc, ALL, texts)
-    fids = {f["id"] for f in findings}
-    explained = [r for r, v in zip(div, allv) if v == r["crate"]]
+    fids = {f["id"]: f for f in findings}
+    explained = []
     for r, v in zip(div, allv):
-        if v != r["crate"]:
-            t = r["text"]
-            res.violation("language: cddl_from_str %s %r but the RFC 8610/9682 ABNF (+ documented leniencies) %s it; not explained by any known deviation"
-                          % ("accepts" if r["crate"] == "Y" else "rejects", t, "derives" if r["spec"] == "Y" else "does not derive"),
-                          {"kind": "language", "text_hex": hx(t), "text": t, "crate": r["crate"], "spec": r["spec"], "all_deviations": v})
-    # attribution by single switches (evidence; also decides which finding is reported)
-    single = {k: variant(orc, SPEC | (1 << k), [r["text"] for r in explained]) for k in BITS}
+        if v == r["crate"]:
+            explained.append(r)
+            continue
+        t = r["text"]
+        res.violation("language: cddl_from_str %s %r but the RFC 8610/9682 ABNF (+ documented leniencies) %s it; not explained by the known deviations"
+                      % ("accepts" if r["crate"] == "Y" else "rejects", t, "derives" if r["spec"] == "Y" else "does not derive"),
+                      {"kind": "language", "text_hex": hx(t), "text": t, "crate": r["crate"], "spec": r["spec"], "all_deviations": v})
+    # attribution: which single switch explains the text (several may); "combination" when only several together do
+    etexts = [r["text"] for r in explained]
+    single = {k: variant(orc, 1 << k, etexts) for k in BITS}
     for i, r in enumerate(explained):
-        ks = [k for k in BITS if single[k][i] == r["crate"]]
-        names = [BITS[k] for k in ks] or ["combination"]
+        names = [BITS[k] for k in BITS if single[k][i] == r["crate"]]
+        if not names:
+            # find which switches are necessary: switching one off breaks the agreement
+            need = [k for k in BITS if variant(orc, ALL & ~(1 << k), [r["text"]])[0] != r["crate"]]
+            names = [BITS[k] for k in need] or ["combination"]
+            hist["combination"] = hist.get("combination", 0) + 1
         for n in names:
             hist[n] = hist.get(n, 0) + 1
-        if not ks:
-            # needs several switches at once: find a minimal set greedily (bounded)
-            need = []
-            for k in BITS:
-                m = ALL & ~(1 << k)
-                for kk in need:
-                    pass
-            names = ["combination"]
-        for n in names:
             if n in fids:
-                res.known(next(f for f in findings if f["id"] == n))
-        if names == ["combination"]:
-            stats["combination"] += 1
-        if any(n != "combination" and n not in fids for n in names):
-            res.violation("language divergence on %r is explained by deviation %s, which is not an open finding" % (r["text"], names),
-                          {"kind": "language-unlisted", "text_hex": hx(r["text"]), "text": r["text"]})
+                res.known(fids[n])
+            elif n != "combination":
+                res.violation("language divergence on %r is explained by deviation %s, which is not an open finding" % (r["text"], n),
+                              {"kind": "language-unlisted", "text_hex": hx(r["text"]), "text": r["text"], "deviation": n})
 
 
 def load_findings():
@@ -601,26 +617,29 @@ def load_findings():
 
 
 def replay_findings(res, drv, orc, findings):
-    """every open finding's witness is replayed on the implementation and the specification at the start of every run"""
+    """every open finding's witnesses are replayed on the implementation and on the specification at the start of every run"""
     for kf in findings:
         w = kf["witness"]
-        texts = w["texts"]
-        rows = evaluate(drv, orc, texts)
+        cases = w["cases"]
+        rows = evaluate(drv, orc, [c["text"] for c in cases])
         still = 0
-        for r in rows:
+        for c, r in zip(cases, rows):
             verdict, payload = split_ast(r["impl_ast"])
             crate = "Y" if verdict == "ok" else "N"
             if "bit" in w:
-                v1 = variant(orc, SPEC | (1 << w["bit"]), [r["text"]])[0]
-                if crate != r["spec"] and v1 == crate and crate == w["crate"]:
+                v1 = variant(orc, 1 << w["bit"], [r["text"]])[0]
+                if crate == c["crate"] and crate != r["spec"] and v1 == crate:
                     still += 1
             elif "shape" in w:
                 if verdict == "ok" and payload == w["shape"]:
                     still += 1
-        if still == len(texts):
+        if still == len(cases):
             res.known(kf)
+        elif still == 0:
+            res.notes.append("finding %s apparently repaired (none of its %d witnesses fails any more)" % (kf["id"], len(cases)))
         else:
-            res.notes.append("finding %s apparently repaired (%d of %d witnesses still fail)" % (kf["id"], still, len(texts)))
+            res.known(kf)
+            res.notes.append("finding %s: only %d of %d witnesses still fail" % (kf["id"], still, len(cases)))
 
 
 def control_table(res, drv, orc):
@@ -635,14 +654,20 @@ def control_table(res, drv, orc):
 
 
 def run(tier, seed):
+    import time
     res = Result(PROP, tier, seed)
+    tm = {}
+    t0 = time.time()
     proved = common.prove(res, PROP, PROP_FILE, [EXTRACT])
+    tm["prove+audit"] = round(time.time() - t0, 1); t0 = time.time()
     drv = common.build_harness("c03")
     orc = common.build_oracle("grammar", ["grammar_model"])
     rng = random.Random(seed)
     findings = load_findings()
+    tm["build"] = round(time.time() - t0, 1); t0 = time.time()
     replay_findings(res, drv, orc, findings)
     control_table(res, drv, orc)
+    tm["replay-findings"] = round(time.time() - t0, 1); t0 = time.time()
     cases, used, used_x = gen_texts(rng, tier, wide=not proved)
     seen, uniq = set(), []
     for c, t in cases:
@@ -650,11 +675,13 @@ def run(tier, seed):
             seen.add(t); uniq.append((c, t))
     texts = [t for _, t in uniq]
     rows = evaluate(drv, orc, texts)
+    tm["evaluate"] = round(time.time() - t0, 1); t0 = time.time()
     stats = {k: 0 for k in ("tree_identical", "accepted", "shape_identical", "rejected-syntax", "rejected-semantic", "semantic-skipped",
                             "language-compared", "language-agree-Y", "language-agree-N", "combination")}
     hist = {}
     div = judge(res, orc, rows, findings, stats)
     classify(res, orc, div, findings, stats, hist)
+    tm["classify"] = round(time.time() - t0, 1); t0 = time.time()
     cls = {}
     for (c, _), r in zip(uniq, rows):
         e = cls.setdefault(c, {"n": 0, "accepted": 0})
@@ -667,7 +694,7 @@ def run(tier, seed):
     for t in sl:
         cps = common.coq_list([ord(ch) for ch in t])
         exprs += ["cddl_tree " + cps, "cddl_shape " + cps, "variant_verdict 0 " + cps]
-    vm = common.vm_compute_slice(PROP, "From Cddl Require Import Grammar.C03Model.", exprs)
+    vm = common.vm_compute_slice(PROP, "From Coq Require Import List NArith. Import ListNotations. From Cddl Require Import Grammar.C03Model.", exprs)
     orc_sl = []
     for t in sl:
         orc_sl += [common.run_tool(orc, ["T\t" + hx(t)], shards=1)[0], common.run_tool(orc, ["H\t" + hx(t)], shards=1)[0],
@@ -675,6 +702,8 @@ def run(tier, seed):
     vm_bad = [(e, x, y) for e, x, y in zip(exprs, vm, orc_sl) if x != y]
     if vm_bad:
         res.violation("extracted oracle and vm_compute disagree on %s: %s vs %s" % vm_bad[0], {"kind": "extraction", "case": list(vm_bad[0])}, no_input=True)
+    tm["vm-slice"] = round(time.time() - t0, 1)
+    res.coverage["timings_s"] = tm
     if not proved and not res.violations:
         res.violation(res.proof_broken, {"kind": "proof-obligation", "detail": res.proof_broken}, no_input=True)
     nontrivial = [t for t in texts if len(t) >= 5]
@@ -685,7 +714,8 @@ def run(tier, seed):
         "rule": "distinct texts of at least 5 characters; every text is run through the real parser (pair tree + AST shape), the PEG model, "
                 "the bridge model and the verified ABNF recogniser",
         "exhaustive": True,
-        "exhaustive_scope": ["all strings of at most %d tokens (joined by one blank) over the %d-token alphabet %s" % (3 if tier == "quick" else 4, len(TOKENS), " ".join(TOKENS)),
+        "exhaustive_scope": ["every code point of U+0000..U+017F (and %d boundary code points above) in each of %d one-character slots" % (len(SWEEP_CPS) - 0x180, len(SWEEP_SLOTS)),
+                             "all strings of at most %d tokens (joined by one blank) over the %d-token alphabet %s" % (3 if tier == "quick" else 4, len(TOKENS), " ".join(TOKENS)),
                              "all rule bodies 'a = ' + at most %d such tokens" % (2 if tier == "quick" else 3)],
         "class_histogram": cls,
         "construct_histogram": used, "construct_histogram_exotic": used_x,
@@ -718,12 +748,13 @@ def replay(path):
     print("model tree :", common.run_tool(orc, ["T\t" + h])[0])
     print("impl ast   :", b[1] if len(b) > 1 else "")
     print("model shape:", common.run_tool(orc, ["H\t" + h])[0])
-    print("spec (RFC 8610/9682 + leniencies + type1 note) derives:", common.run_tool(orc, ["V\t0\t" + h])[0])
+    print("spec (RFC 8610/9682 + leniencies, names/numbers as maximal tokens) derives:", common.run_tool(orc, ["V\t0\t" + h])[0])
     print("RFC rules only derive:", common.run_tool(orc, ["F\t" + h])[0])
     print("all known deviations switched on:", common.run_tool(orc, ["V\t%d\t%s" % (ALL, h)])[0])
+    print("literal ABNF + leniencies (no tokenisation convention):", common.run_tool(orc, ["L\t" + h])[0])
     for k, n in BITS.items():
-        print("  with deviation %-28s:" % n, common.run_tool(orc, ["V\t%d\t%s" % (SPEC | (1 << k), h)])[0])
+        print("  with deviation %-28s:" % n, common.run_tool(orc, ["V\t%d\t%s" % (1 << k, h)])[0])
     cps = common.coq_list([ord(ch) for ch in t])
-    vm = common.vm_compute_slice(PROP, "From Cddl Require Import Grammar.C03Model.", ["cddl_tree " + cps, "cddl_shape " + cps, "variant_verdict 0 " + cps])
+    vm = common.vm_compute_slice(PROP, "From Coq Require Import List NArith. Import ListNotations. From Cddl Require Import Grammar.C03Model.", ["cddl_tree " + cps, "cddl_shape " + cps, "variant_verdict 0 " + cps])
     print("vm_compute :", vm)
     return 0
